@@ -19,6 +19,9 @@ pub struct Truth {
     pub e_tag: Option<String>,
     pub last_modified_ms: i64,
     pub payload_path: String,
+    /// pre-0.10 layout written by the harness (no generation): head and listings legitimately report
+    /// different backend timestamps, and the document is not in the sealed generation layout
+    pub legacy: bool,
 }
 
 #[derive(Clone, Debug)]
@@ -31,6 +34,11 @@ pub struct Hist {
     pub size: u64,
     pub e_tag: Option<String>,
     pub last_modified_ms: i64,
+    /// the op line that made this commit and the bodies it handed to the backend: (path, length)
+    pub op: String,
+    pub writes: Vec<(String, usize)>,
+    /// pre-0.10 layout (no generation): reported timestamps are the backend's, not part of the commit
+    pub legacy: bool,
 }
 
 pub struct World {
@@ -198,7 +206,8 @@ impl World {
     }
 
     /// Records the committed view of `loc` right after a successful write.
-    async fn commit_truth(&mut self, loc: &str, plain: Vec<u8>) -> Result<(), String> {
+    async fn commit_truth(&mut self, loc: &str, plain: Vec<u8>, op: &str, w0: usize) -> Result<(), String> {
+        let writes: Vec<(String, usize)> = self.rec.shared.writes.lock().unwrap()[w0..].iter().map(|(p, b)| (p.clone(), b.len())).collect();
         let head = self.store.head(&Path::from(loc)).await.map_err(|e| format!("head after write: {e}"))?;
         let snap = self.snapshot().await;
         let meta_bytes = snap.get(&format!("meta/{loc}")).ok_or("no metadata document after write")?.clone();
@@ -216,6 +225,7 @@ impl World {
                 e_tag: head.e_tag.clone(),
                 last_modified_ms: head.last_modified.timestamp_millis(),
                 payload_path: payload_path.clone(),
+                legacy: op.starts_with("legacy"),
             },
         );
         self.history.push(Hist {
@@ -227,6 +237,9 @@ impl World {
             size: head.size,
             e_tag: head.e_tag.clone(),
             last_modified_ms: head.last_modified.timestamp_millis(),
+            op: op.to_string(),
+            writes,
+            legacy: op.starts_with("legacy"),
         });
         self.plaintexts.push(plain);
         Ok(())
@@ -234,11 +247,107 @@ impl World {
 
     /// Executes one write op line. `Err` = the op line is malformed or the write failed unexpectedly.
     pub async fn write(&mut self, w: &[&str]) -> Result<(), String> {
+        let op = w.join(" ");
+        let op = op.as_str();
+        let w0 = self.rec.shared.writes.lock().unwrap().len();
         match w {
+            ["legacy", loc, size, seed, kind] => {
+                // a genuine pre-0.10 object, written straight into the backend as the old versions did:
+                // `unsealed` (pre-authentication: no seal, empty chunk AAD) or `sealedv1` (0.9.x: sealed,
+                // bound chunk AAD, no generation pointer); ciphertext under data/<loc>
+                let plain = data(seed.parse().map_err(|_| "seed")?, size.parse().map_err(|_| "size")?);
+                let gcm = Gcm::new(self.key);
+                let sealed = *kind == "sealedv1";
+                let c = self.chunk;
+                let mut r = Rng::new(plain.len() as u64 ^ 0x1e9ac7);
+                let mut base = [0u8; 12];
+                for b in base.iter_mut() {
+                    *b = r.next_u64() as u8;
+                }
+                let mut ct = Vec::new();
+                let mut tags: Vec<Vec<u8>> = Vec::new();
+                for (i, ch) in plain.chunks(c as usize).enumerate() {
+                    let mut nonce = base;
+                    let ctr = u64::from_le_bytes(nonce[4..12].try_into().unwrap()).wrapping_add(i as u64);
+                    nonce[4..12].copy_from_slice(&ctr.to_le_bytes());
+                    let mut aad = Vec::new();
+                    if sealed {
+                        aad.extend_from_slice(b"anda_object_store.encrypted.chunk.v1");
+                        aad.extend_from_slice(&c.to_le_bytes());
+                        aad.extend_from_slice(&(i as u64).to_le_bytes());
+                    }
+                    let (x, t) = gcm.seal(&nonce, &aad, ch).ok_or("seal")?;
+                    ct.extend_from_slice(&x);
+                    tags.push(t);
+                }
+                use cbor2::Value;
+                let etag = format!("legacy-etag-{}", plain.len());
+                let mut entries: Vec<(Value, Value)> = vec![
+                    (Value::Text("s".into()), Value::Integer((plain.len() as u64).into())),
+                    (Value::Text("e".into()), Value::Text(etag.clone())),
+                    (Value::Text("o".into()), Value::Text("inner".into())),
+                    (Value::Text("v".into()), Value::Null),
+                    (Value::Text("n".into()), Value::Bytes(base.to_vec())),
+                    (Value::Text("t".into()), Value::Array(tags.iter().map(|t| Value::Bytes(t.clone())).collect())),
+                    (Value::Text("c".into()), Value::Integer(c.into())),
+                ];
+                if sealed {
+                    // metadata_auth_aad of a v1 document (no generation, no commit time), written out by hand
+                    let mut aad = b"anda_object_store.encrypted.metadata.v1".to_vec();
+                    let pb = |out: &mut Vec<u8>, v: &[u8]| {
+                        out.extend_from_slice(&(v.len() as u64).to_le_bytes());
+                        out.extend_from_slice(v);
+                    };
+                    pb(&mut aad, loc.as_bytes());
+                    aad.extend_from_slice(&(plain.len() as u64).to_le_bytes());
+                    aad.push(1);
+                    pb(&mut aad, etag.as_bytes());
+                    aad.push(1);
+                    pb(&mut aad, b"inner");
+                    aad.push(0);
+                    pb(&mut aad, &base);
+                    aad.push(1);
+                    aad.extend_from_slice(&c.to_le_bytes());
+                    aad.push(1);
+                    aad.push(1);
+                    aad.extend_from_slice(&(tags.len() as u64).to_le_bytes());
+                    for t in &tags {
+                        pb(&mut aad, t);
+                    }
+                    let mut an = [0u8; 12];
+                    for b in an.iter_mut() {
+                        *b = r.next_u64() as u8;
+                    }
+                    let (_, at) = gcm.seal(&an, &aad, &[]).ok_or("seal")?;
+                    entries.push((Value::Text("av".into()), Value::Integer(1u64.into())));
+                    entries.push((Value::Text("an".into()), Value::Bytes(an.to_vec())));
+                    entries.push((Value::Text("at".into()), Value::Bytes(at)));
+                }
+                // an overwritten key: the store itself would have removed the replaced payload
+                if let Some(t) = self.truth.get(*loc) {
+                    let old = t.payload_path.clone();
+                    self.raw_delete(&old).await;
+                }
+                self.raw_put(&format!("data/{loc}"), &ct).await;
+                self.raw_put(&format!("meta/{loc}"), &crate::metadoc::encode_value(&Value::Map(entries))).await;
+                // the long-lived instance may hold an older document of this key
+                self.store = Self::build(&self.rec, self.key, self.chunk, self.strict);
+                self.commit_truth(loc, plain, op, w0).await
+            }
+            ["puta", loc, size, seed] => {
+                // put with caller attributes (forwarded to the payload object by the store)
+                let plain = data(seed.parse().map_err(|_| "seed")?, size.parse().map_err(|_| "size")?);
+                let mut attributes = Attributes::new();
+                attributes.insert(Attribute::ContentType, "application/x-vh-c09".into());
+                attributes.insert(Attribute::Metadata("vh".into()), "c09-attribute".into());
+                let opts = PutOptions { attributes, ..Default::default() };
+                self.store.put_opts(&Path::from(*loc), PutPayload::from(plain.clone()), opts).await.map_err(|e| format!("put_opts: {e}"))?;
+                self.commit_truth(loc, plain, op, w0).await
+            }
             ["put", loc, size, seed] => {
                 let plain = data(seed.parse().map_err(|_| "seed")?, size.parse().map_err(|_| "size")?);
                 self.store.put(&Path::from(*loc), PutPayload::from(plain.clone())).await.map_err(|e| format!("put: {e}"))?;
-                self.commit_truth(loc, plain).await
+                self.commit_truth(loc, plain, op, w0).await
             }
             ["mput", loc, seed, parts] => {
                 let sizes: Vec<usize> = if *parts == "-" { vec![] } else { parts.split(',').map(|p| p.parse().map_err(|_| "part")).collect::<Result<_, _>>()? };
@@ -251,12 +360,12 @@ impl World {
                     off += s;
                 }
                 up.complete().await.map_err(|e| format!("complete: {e}"))?;
-                self.commit_truth(loc, plain).await
+                self.commit_truth(loc, plain, op, w0).await
             }
             ["copy", from, to] => {
                 let plain = self.truth.get(*from).ok_or("copy: unknown source")?.plain.clone();
                 self.store.copy(&Path::from(*from), &Path::from(*to)).await.map_err(|e| format!("copy: {e}"))?;
-                self.commit_truth(to, plain).await
+                self.commit_truth(to, plain, op, w0).await
             }
             ["rename", from, to] => {
                 let plain = self.truth.get(*from).ok_or("rename: unknown source")?.plain.clone();
@@ -264,7 +373,7 @@ impl World {
                 if from != to {
                     self.truth.remove(*from);
                 }
-                self.commit_truth(to, plain).await
+                self.commit_truth(to, plain, op, w0).await
             }
             ["del", loc] => {
                 self.store.delete(&Path::from(*loc)).await.map_err(|e| format!("delete: {e}"))?;
